@@ -12,7 +12,8 @@ import itertools
 import z3
 
 FIN, NAN, PINF, NINF, MASKED = 0, 1, 2, 3, 4
-CONGRUENCE_TIMEOUT_MS = 3000
+CONGRUENCE_TIMEOUT_MS = -1      # engine.ABS_ONLY: congruence checks consult the linear abstraction only
+KIND_TIMEOUT_MS = 2000          # kind normalisation: abstraction first, then the full solver briefly
 KNAMES = {FIN: "fin", NAN: "nan", PINF: "+inf", NINF: "-inf", MASKED: "masked"}
 
 
@@ -43,6 +44,7 @@ class Ctx(object):
     def reset_run(self):
         self.loops = []         # symbolic loops executed at a generic index: (k, lo, hi)
         self.ranges = {}        # generic index id -> its range condition
+        self.equated = set()
         self.counter = itertools.count()
         self.pc = []            # path condition (z3 Bool)
         self.facts = []         # background facts: ranges of generic indices, atom facts, axioms
@@ -181,7 +183,7 @@ def toz(x, sort=None):
     if isinstance(x, int):
         return z3.IntVal(x) if sort in (None, "int") else z3.RealVal(x)
     if isinstance(x, float):
-        return z3.RealVal(repr(x)) if x == x and abs(x) != float("inf") else None
+        return z3.RealVal(repr(float(x))) if x == x and abs(x) != float("inf") else None
     if sort == "real" and z3.is_int(x):
         return z3.ToReal(x)
     return x
@@ -355,7 +357,7 @@ class SNum(object):
             return SNum(PINF, is_numpy=is_numpy)
         if x == float("-inf"):
             return SNum(NINF, is_numpy=is_numpy)
-        return SNum(FIN, z3.RealVal(repr(x)), is_numpy=is_numpy)
+        return SNum(FIN, z3.RealVal(repr(float(x))), is_numpy=is_numpy)
 
     # ---- kind predicates (z3 Bool or python bool)
     def kis(self, which):
@@ -531,7 +533,7 @@ def norm_kind(x):
     if z3.is_int_value(k):
         return SNum(k.as_long(), x.v, is_int=x.is_int, is_numpy=x.is_numpy)
     eng = CTX.engine
-    if eng is not None and eng.entails(k == FIN, timeout_ms=CONGRUENCE_TIMEOUT_MS):
+    if eng is not None and eng.entails(k == FIN, timeout_ms=KIND_TIMEOUT_MS):
         return SNum(FIN, x.v, is_int=x.is_int, is_numpy=x.is_numpy)
     return SNum(k, x.v, is_int=x.is_int, is_numpy=x.is_numpy)
 
@@ -588,9 +590,9 @@ def num_div(a, b):
         k = z3.simplify(k)
         if z3.is_int_value(k):
             k = k.as_long()
-        elif CTX.engine is not None and CTX.engine.entails(k == FIN, timeout_ms=CONGRUENCE_TIMEOUT_MS):
+        elif CTX.engine is not None and CTX.engine.entails(k == FIN, timeout_ms=KIND_TIMEOUT_MS):
             k = FIN
-    if isinstance(k, int) and k == FIN and (CTX.engine is not None and CTX.engine.entails(z3.Not(bz(bzero)), timeout_ms=CONGRUENCE_TIMEOUT_MS)):
+    if isinstance(k, int) and k == FIN and (CTX.engine is not None and CTX.engine.entails(z3.Not(bz(bzero)), timeout_ms=KIND_TIMEOUT_MS)):
         return SNum(FIN, a.rv() / bv, is_int=False, is_numpy=a.is_numpy or b.is_numpy)
     safe = Ite(bzero, z3.RealVal(1), bv)
     v = Ite(b.isinf(), z3.RealVal(0), a.rv() / safe)
@@ -1437,6 +1439,10 @@ def sum_atom(axes, term_fn, integer=False):
             tot = tot + t
         return tot
     idx = _fresh_idx(axes)
+    # R4 at the comparison index: Sigma t >= t(idx) for every non-negative sum over this domain (so that
+    # "this bin is empty" on the path makes the bin's indicator false at idx)
+    for f in instantiate_atoms([(tuple(axes), idx)]):
+        CTX.facts.append(f)
     t = term_fn(idx)
     t = toz(t, "int" if integer else "real")
     if not integer and z3.is_int(t):
@@ -1449,13 +1455,17 @@ def sum_atom(axes, term_fn, integer=False):
     zero = toz(0, "int" if integer else "real")
     if pointwise_equal(eng, R, t, zero):
         return zero
+    if _mentions(ts, idx) and integer and not _pure_arith(ts) and eng.entails(z3.Implies(R, t == 1), timeout_ms=CONGRUENCE_TIMEOUT_MS):
+        ts = z3.IntVal(1)         # an indicator that holds everywhere: the count is the number of index points
+    shortcut = None
     if not _mentions(ts, idx):
         # constant summand c: the sum is c * (number of index points)
         n = None
         for ax in axes:
             sz = ax.size.v if integer else (z3.ToReal(ax.size.v) if z3.is_int(ax.size.v) else ax.size.v)
             n = sz if n is None else n * sz
-        return ts * n if n is not None else ts
+        shortcut = ts * n if n is not None else ts
+    matches = []
     for at in CTX.atoms:
         if at.kind == "sum" and len(at.axes) == len(axes) and all(a is b for a, b in zip(at.axes, axes)) and at.extra == integer:
             t2 = at.fn(idx)
@@ -1463,7 +1473,18 @@ def sum_atom(axes, term_fn, integer=False):
             if not integer and z3.is_int(t2):
                 t2 = z3.ToReal(t2)
             if pointwise_equal(eng, R, t, t2):
-                return at.const
+                matches.append(at)
+    if shortcut is not None:
+        for other in matches:
+            CTX.facts.append(other.const == shortcut)
+        return shortcut
+    if matches:
+        # atoms created earlier on this path under a weaker path condition may now be provably equal
+        for other in matches[1:]:
+            if (matches[0].const.get_id(), other.const.get_id()) not in CTX.equated:
+                CTX.equated.add((matches[0].const.get_id(), other.const.get_id()))
+                CTX.facts.append(matches[0].const == other.const)
+        return matches[0].const
     c = CTX.fresh("sum", "int" if integer else "real")
     at = Atom("sum", tuple(axes), term_fn, c, extra=integer)
     # a sum over an empty index domain is 0
@@ -1596,8 +1617,30 @@ def instantiate_atoms(idx_by_axes):
     return out
 
 
-def domain_size_facts(axes, c_total=None):
-    return []
+def refresh_atoms(eng):
+    """Atoms created early on a path were compared under a weaker set of facts.  Before a goal is proved, compare
+    them again (zero summand, pairwise congruence over the same domain) under everything known now."""
+    sums = [at for at in CTX.atoms if at.kind == "sum"]
+    for a_i, at in enumerate(sums):
+        idx = _fresh_idx(at.axes)
+        for f in instantiate_atoms([(tuple(at.axes), idx)]):
+            CTX.facts.append(f)
+        R = rng(idx)
+        t = toz(at.fn(idx), "int" if at.extra else "real")
+        key0 = ("zero", at.const.get_id())
+        if key0 not in CTX.equated and pointwise_equal(eng, R, t, toz(0, "int" if at.extra else "real")):
+            CTX.equated.add(key0)
+            CTX.facts.append(at.const == 0)
+        for other in sums[a_i + 1:]:
+            if not _same_domains(at.axes, other.axes) or at.extra != other.extra:
+                continue
+            key = (at.const.get_id(), other.const.get_id())
+            if key in CTX.equated:
+                continue
+            t2 = toz(other.fn(idx), "int" if other.extra else "real")
+            if pointwise_equal(eng, R, t, t2):
+                CTX.equated.add(key)
+                CTX.facts.append(at.const == other.const)
 
 
 def _same_domains(a_axes, b_axes):
